@@ -71,6 +71,9 @@ MUTANTS = [
     ('accessLog script type error', [(['accessLog'], {'path': 'a.log', 'format': {'script': 'request.target.port'}})]),
     ('accessLog script ok', [(['accessLog'], {'path': 'a.log', 'format': {'script': '`${request.listener} ${request.target}`'}})]),
     ('accessLog script runtime error', [(['accessLog'], {'path': 'a.log', 'format': {'script': 'to_string(to_integer(request.target.host))'}})]),
+    # passes the load-time check (which sees an empty request) and fails for the probe's real request
+    ('accessLog script fails on a real request', [(['accessLog'], {'path': 'a.log', 'format': {'script': f'to_string(100 / (request.target.port - {origin.port}))'}})]),
+    ('accessLog script fails on every real request', [(['accessLog'], {'path': 'a.log', 'format': {'script': 'to_string(to_integer(request.listener))'}})]),
     ('tls cert missing', [(['listeners', 0, 'tls'], {'cert': 'missing.crt', 'key': 'missing.key'})]),
     ('tls key file without PEM block', [(['listeners', 0, 'tls'], {'cert': 'EMPTYFILE', 'key': 'EMPTYFILE'})]),
     ('tls client ca missing', [(['listeners', 0, 'tls'], {'cert': 'EMPTYFILE', 'key': 'EMPTYFILE', 'client': {'ca': 'missing', 'required': True}})]),
